@@ -30,6 +30,7 @@ InvNoWriteOutsideFrame == NoWriteOutsideFrame(O)
 InvAlignedInBody == AlignedInBody(O)
 InvDisjoint == Disjoint(O)
 InvStackArgs == StackArgs(O)
+InvHomeSlots == HomeSlots(O)
 InvFrameRecord == FrameRecord(O)
 InvCompleted == Completed(O)
 InvSavedRestored == SavedRestored(O)
